@@ -2,6 +2,8 @@ package props
 
 import (
 	"czcheck/an"
+	"go/token"
+	"strings"
 
 	"golang.org/x/tools/go/ssa"
 )
@@ -53,4 +55,92 @@ func (m *evalModel) reachesCallSameIteration(b *ssa.BasicBlock) *an.Witness {
 // postLoop reports whether block b lies after the rule loop (outside it and reachable from an exit).
 func (m *evalModel) postLoop(b *ssa.BasicBlock) bool {
 	return !m.loop.Blocks[b] && m.loop.Header.Dominates(b)
+}
+
+// cacheClearedBefore: every path from fn's entry to a target instruction passes a complete emptying of
+// <tx>.transformationCache — a delete loop that ranges over that very map, cannot be bypassed, skips no entry and
+// has no inner exit — or a clear() of it.  skip: blocks that do not count (the rule loop itself).
+func cacheClearedBefore(fn *ssa.Function, isTarget func(ssa.Instruction) bool, skip map[*ssa.BasicBlock]bool) (bool, string) {
+	isCache := func(v ssa.Value) bool {
+		return strings.HasSuffix(tempName.ReplaceAllString(an.Expr(v), ""), ".transformationCache")
+	}
+	var del ssa.Instruction
+	an.Instrs(fn, func(in ssa.Instruction) {
+		if an.IsBuiltinCall(in, "delete") && isCache(an.CallOf(in).Args[0]) && !skip[in.Block()] {
+			del = in
+		}
+	})
+	why := "the entries of the transformation cache are not deleted"
+	if del != nil {
+		l := an.InnermostLoop(del.Block())
+		key := tempName.ReplaceAllString(an.Expr(an.CallOf(del).Args[1]), "")
+		if l != nil && strings.Contains(key, "range(") && strings.Contains(key, ".transformationCache)") {
+			w := an.FindPath(an.PathQuery{Fn: fn, Stop: func(in ssa.Instruction) bool { return in.Block() == l.Header }, Target: isTarget})
+			var body *ssa.BasicBlock
+			for _, sc := range l.Header.Succs {
+				if l.Blocks[sc] {
+					body = sc
+				}
+			}
+			w2 := an.FindPath(an.PathQuery{Fn: fn, StartBlock: body, Stop: func(x ssa.Instruction) bool { return x == del },
+				Target: func(x ssa.Instruction) bool { return x == l.Header.Instrs[0] }})
+			exits := 0
+			for _, e := range l.ExitEdges() {
+				if e[0].(*ssa.BasicBlock) != l.Header {
+					exits++
+				}
+			}
+			if w == nil && w2 == nil && exits == 0 {
+				return true, ""
+			}
+			why = "the clearing loop can be bypassed or skips entries"
+		}
+	}
+	// alternative: clear(tx.transformationCache) on every path
+	var clr ssa.Instruction
+	an.Instrs(fn, func(in ssa.Instruction) {
+		if an.IsBuiltinCall(in, "clear") && isCache(an.CallOf(in).Args[0]) && !skip[in.Block()] {
+			clr = in
+		}
+	})
+	if clr != nil {
+		if w := an.FindPath(an.PathQuery{Fn: fn, Stop: func(in ssa.Instruction) bool { return in == clr }, Target: isTarget}); w == nil {
+			return true, ""
+		}
+	}
+	return false, why
+}
+
+// evalClearsCache: Eval empties the transformation cache before the first rule of the phase, itself or through a
+// private helper of the package that every path to the rule loop calls and that empties the map on every path to
+// its return; and the map given to r.Evaluate is the transaction's cache (directly or as that helper's result).
+func evalClearsCache(m *evalModel) (cleared bool, why string, sameMap bool, arg string) {
+	cleared, why = cacheClearedBefore(m.fn, func(in ssa.Instruction) bool { return in == m.call }, m.loop.Blocks)
+	if !cleared {
+		an.Instrs(m.fn, func(in ssa.Instruction) {
+			cc := an.CallOf(in)
+			if cleared || cc == nil || cc.StaticCallee() == nil || m.loop.Blocks[in.Block()] {
+				return
+			}
+			h := cc.StaticCallee()
+			if relPkg(h) != pkgWAF || token.IsExported(h.Name()) || len(h.Blocks) == 0 {
+				return
+			}
+			if ok, _ := cacheClearedBefore(h, an.IsReturn, nil); !ok {
+				return
+			}
+			if w := an.FindPath(an.PathQuery{Fn: m.fn, Stop: func(x ssa.Instruction) bool { return x == in }, Target: func(x ssa.Instruction) bool { return x == m.call }}); w == nil {
+				cleared = true
+			}
+		})
+	}
+	a := an.CallOf(m.call).Args[3]
+	arg = tempName.ReplaceAllString(an.Expr(a), "")
+	sameMap = true
+	for _, lf := range leavesOf(a, nil, 0) {
+		if !strings.HasSuffix(tempName.ReplaceAllString(an.Expr(lf.V), ""), ".transformationCache") {
+			sameMap = false
+		}
+	}
+	return
 }
